@@ -571,9 +571,28 @@ def r04_8(prog: Program, rep):
            "ChecksumMismatch" in joined and "digest()" in joined, "", psr[0].node.lineno if psr else 0)
 
 
+def r04_14(prog: Program, rep):
+    """A loose object file cut short must not inflate to a shorter object: _decompress tests that the zlib stream has ENDED (eof)
+    before it returns the data."""
+    m = prog.module("dulwich/objects.py")
+    f = m.funcs.get("_decompress")
+    if f is None:
+        raise AnalysisError("objects._decompress not found")
+    g = cfg_of(prog, f)
+    rets = [i for i, n in g.nodes.items() if n.kind == "stmt" and isinstance(n.ast, ast.Return) and n.ast.value is not None]
+    eof = [i for i, n in g.nodes.items() if n.kind == "test" and ".eof" in norm(n.ast)]
+    uses_obj = any(isinstance(c, ast.Call) and dotted(c.func) == "zlib.decompressobj" for c in ast.walk(f.node))
+    whole = any(isinstance(c, ast.Call) and dotted(c.func) == "zlib.decompress" for c in ast.walk(f.node))     # zlib.decompress() itself raises on a truncated stream
+    bad = must_pass(g, rets, eof) if uses_obj else []
+    rep.ob("R04.14", m.rel, f.qual, "the end of the zlib stream is checked before the inflated data is returned", (uses_obj and bool(eof) and not bad) or (whole and not uses_obj),
+           "decompressobj().decompress() of a truncated stream returns the prefix it could inflate: a loose object file cut short reads as a SHORTER object under "
+           "the original name (get_raw, iterobjects_subset), and pack_loose_objects packs it as a different object and deletes the original", f.node.lineno)
+
+
 def run(prog: Program, rep, tier="quick"):
     rep.rule("R04.1", "MUST-PRECEDE: visibility events of ingestion routines are preceded by trailer verification or full materialisation")
     rep.rule("R04.2", "RELEASE-ON-EXIT for every add_pack() user: abort on exception paths, commit|abort on normal paths, no commit after a handler")
+    rep.rule("R04.14", "a truncated loose object is an error: the zlib stream's eof is tested before the data is returned")
     rep.rule("R04.3", "rollback of _complete_pack removes every created file, closes, re-raises")
     rep.rule("R04.4", "NEVER-BEFORE: no store mutation while the incoming pack is still being consumed")
     rep.rule("R04.5", "every decompress call passes an output bound; zlib chunk readers agree; ofs base offset zero-checked")
@@ -589,6 +608,7 @@ def run(prog: Program, rep, tier="quick"):
     r04_1(prog, rep)
     r04_2(prog, rep)
     r04_3(prog, rep)
+    r04_14(prog, rep)
     r04_4(prog, rep)
     r04_5(prog, rep)
     r04_6(prog, rep)
